@@ -14,6 +14,30 @@ use walkdir::DirEntry;
 
 use super::Follow;
 
+/// Get the last component of a path as it was spelled. `.` and `..` count as
+/// components (`dir/.` is named `.`, not `dir`), trailing slashes do not.
+fn last_component(path: &Path) -> &OsStr {
+    #[cfg(unix)]
+    {
+        use std::os::unix::ffi::OsStrExt;
+
+        let bytes = path.as_os_str().as_bytes();
+        if let Some(last) = bytes.iter().rposition(|&b| b != b'/') {
+            let start = bytes[..last]
+                .iter()
+                .rposition(|&b| b == b'/')
+                .map_or(0, |i| i + 1);
+            return OsStr::from_bytes(&bytes[start..=last]);
+        }
+    }
+
+    // Path::file_name() only works if the last component is normal
+    path.components()
+        .next_back()
+        .map(|c| c.as_os_str())
+        .unwrap_or_else(|| path.as_os_str())
+}
+
 /// Wrapper for a directory entry.
 #[derive(Debug)]
 enum Entry {
@@ -294,13 +318,9 @@ impl WalkEntry {
     /// Get the name of this entry.
     pub fn file_name(&self) -> &OsStr {
         match &self.inner {
-            Entry::Explicit(path, _) => {
-                // Path::file_name() only works if the last component is normal
-                path.components()
-                    .next_back()
-                    .map(|c| c.as_os_str())
-                    .unwrap_or_else(|| path.as_os_str())
-            }
+            Entry::Explicit(path, _) => last_component(path),
+            // walkdir falls back to the whole path for starting points like `./` or `dir/..`
+            Entry::WalkDir(ent) if ent.depth() == 0 => last_component(ent.path()),
             Entry::WalkDir(ent) => ent.file_name(),
         }
     }
